@@ -776,6 +776,9 @@ def _check_output_dir(rep: Report, m) -> None:
             calls = [n for n in ast.walk(gen.node) if isinstance(n, ast.Call) and isinstance(n.func, ast.Attribute) and n.func.attr == "_initialize_output_file"]
             saves = [n for n in ast.walk(gen.node) if isinstance(n, ast.Call) and isinstance(n.func, ast.Attribute) and n.func.attr == "save"]
             n_gen += 1
+            if not calls and not saves:
+                rep.ok(rd, f"{mod.name.split('.')[-1]}: writes no ODS document", "nothing to carry over from an earlier run (other writers are C18.d's)")
+                continue
             rep.check(len(calls) == 1 and len(saves) == 1, rd, mod.name, "Generator.generate", f"{mod.name.split('.')[-1]}: one document from _initialize_output_file, saved once", f"{mod.name}: generate() calls _initialize_output_file {len(calls)} time(s) and save() {len(saves)} time(s); expected exactly one fresh document per run", loc(gen.node))
     if n_gen < 3:
         raise AnalysisError(f"found {n_gen} report generators; expected >= 3")
